@@ -259,6 +259,12 @@ class _Violated(Exception):
     pass
 
 
+class _ShrinkBudgetSpent(BaseException):
+    """Raised from inside the test function once the shrink budget is used up.
+    Not an Exception, so Hypothesis does not take it for a failing example: it
+    unwinds the engine, and the best failing example seen so far is kept."""
+
+
 def handle(acc: Acc, out: Out, case, known, found=()):
     """Record one directly-checked (non-Hypothesis) case; returns True when it
     produced a violation that is neither a known finding nor already found."""
@@ -341,10 +347,7 @@ def hyp_search(acc: Acc, strategy, check, *, seed, max_examples, known, rounds=3
         @given(strategy)
         def _t(case):
             if "t0" in holder and time.monotonic() - holder["t0"] > SHRINK_BUDGET_S:
-                # shrink budget used up: only the best failing example found so
-                # far is still evaluated (Hypothesis replays it at the end)
-                if digest(jenc(case)) != holder["dig"]:
-                    return
+                raise _ShrinkBudgetSpent()
             out = check(case)
             acc.record(out)
             new = []
@@ -355,13 +358,12 @@ def hyp_search(acc: Acc, strategy, check, *, seed, max_examples, known, rounds=3
                     new.append((k, d))
             if new:
                 holder["last"] = (out.replay_case or case, new)
-                holder["dig"] = digest(jenc(case))
                 holder.setdefault("t0", time.monotonic())
                 raise _Violated(new[0][0])
 
         try:
             _t()
-        except _Violated:
+        except (_Violated, _ShrinkBudgetSpent):
             case, new = holder["last"]
             k, d = new[0]
             found.add(k)
@@ -389,6 +391,13 @@ def hyp_search(acc: Acc, strategy, check, *, seed, max_examples, known, rounds=3
 # --------------------------------------------------------------------------
 def _worker(job):
     modname, spec, ctx = job
+    try:
+        import faulthandler
+        import signal
+
+        faulthandler.register(signal.SIGUSR1, all_threads=True)  # kill -USR1 <pid>: where is it?
+    except (ImportError, AttributeError, ValueError, RuntimeError):
+        pass
     try:
         setup_paths()
         mod = __import__(modname, fromlist=["x"])
